@@ -5,6 +5,7 @@ import (
 	"os"
 	"path/filepath"
 	"sort"
+	"strings"
 	"sync/atomic"
 	"time"
 
@@ -25,10 +26,12 @@ var txNS = []byte("wtxmgr")
 // fault-injecting wrapper.  The txsim driver (events -> store calls, API-level
 // observation) is reused as is: it only needs its exported fields.
 type txEnv struct {
-	path string
-	raw  walletdb.DB
-	fdb  *faultdb.DB
-	drv  *txsim.Driver
+	path  string
+	raw   walletdb.DB
+	fdb   *faultdb.DB
+	drv   *txsim.Driver
+	store *wtxmgr.Store
+	u     *txsim.Universe
 }
 
 func (e *txEnv) close() {
@@ -65,6 +68,7 @@ func createTxEnv(dir string, u *txsim.Universe) (*txEnv, error) {
 	clk := clock.NewTestClock(txsim.Epoch)
 	store.VerifSetClock(clk)
 	e.drv = &txsim.Driver{DB: e.fdb, Store: store, Clock: clk, U: u}
+	e.store, e.u = store, u
 	return e, nil
 }
 
@@ -95,6 +99,7 @@ func openTxCopy(dir, snapshot string, u *txsim.Universe, nowMs int64) (*txEnv, e
 	clk := clock.NewTestClock(txsim.Epoch.Add(time.Duration(nowMs) * time.Millisecond))
 	store.VerifSetClock(clk)
 	e.drv = &txsim.Driver{DB: e.fdb, Store: store, Clock: clk, U: u, NowMs: nowMs}
+	e.store, e.u = store, u
 	return e, nil
 }
 
@@ -136,10 +141,50 @@ func observeTx(e *txEnv, tip int64, blocks txsim.BlockIDs) items {
 	it["unmined"] = js(o.Unmined)
 	it["locked"] = js(o.Locked)
 	it["details"] = js(o.Details) + js(o.Unique)
+	// the labels of the transactions of the universe
+	var labels []string
+	walletdb.View(e.raw, func(tx walletdb.ReadTx) error {
+		ns := tx.ReadBucket(txNS)
+		for _, t := range e.u.Txs {
+			if l, err := wtxmgr.FetchTxLabel(ns, t.Hash()); err == nil {
+				labels = append(labels, fmt.Sprintf("%d=%s", t.ID, l))
+			}
+		}
+		return nil
+	})
+	it["labels"] = strings.Join(labels, ",")
 	return it
 }
 
+func labelText(id int64) string {
+	switch {
+	case id == 0:
+		return ""
+	case id < 0:
+		return strings.Repeat("x", wtxmgr.TxLabelLimit+1)
+	}
+	return fmt.Sprintf("c10-label-%d", id)
+}
+
 func applyTx(e *txEnv, ev txsim.Event) (string, bool) {
+	switch ev.K {
+	case "label":
+		err := walletdb.Update(e.fdb, func(tx walletdb.ReadWriteTx) error {
+			return e.store.PutTxLabel(tx.ReadWriteBucket(txNS), e.u.HashOf(ev.T), labelText(ev.ID))
+		})
+		if err != nil {
+			return err.Error() + "||0", true
+		}
+		return "||0", false
+	case "create":
+		err := walletdb.Update(e.fdb, func(tx walletdb.ReadWriteTx) error {
+			return wtxmgr.Create(tx.ReadWriteBucket(txNS))
+		})
+		if err != nil {
+			return err.Error() + "||0", true
+		}
+		return "||0", false
+	}
 	so := e.drv.Apply(ev)
 	return fmt.Sprintf("%s|%s|%d", so.Err, so.Lock, so.Expiry), so.Err != ""
 }
@@ -170,11 +215,18 @@ func txOpName(ev txsim.Event) string {
 		return "UnlockOutput"
 	case "sweep":
 		return "DeleteExpiredLockedOutputs"
+	case "label":
+		return "PutTxLabel"
+	case "create":
+		return "wtxmgr.Create"
 	}
 	return ev.K
 }
 
 func runTxCase(in input) (*caseOut, error) {
+	if in.Fresh {
+		return runFreshTxCase(in)
+	}
 	co := &caseOut{In: in}
 	u := txsim.Rebuild(in.Universe)
 	dir, err := tempDir("vh-c10-tx-")
@@ -188,6 +240,10 @@ func runTxCase(in input) (*caseOut, error) {
 	}
 	facts := txsim.NewFacts()
 	for _, ev := range in.Events {
+		if ev.K == "label" {
+			applyTx(main, ev)
+			continue
+		}
 		main.drv.Apply(ev)
 		facts.Apply(u, ev)
 	}
@@ -201,9 +257,16 @@ func runTxCase(in input) (*caseOut, error) {
 		return nil, err
 	}
 	f.Close()
-	main.close()
 	tip := txTip(facts)
 	blocks := txBlockIDs(in.Events, in.TxOps)
+	ids := newTxIDs(u, blocks)
+	state, err := dumpTxStore(main.raw, ids)
+	if err != nil {
+		return nil, err
+	}
+	fixTxRecordValues(state)
+	co.Obs.State = state
+	main.close()
 
 	for idx, ev := range in.TxOps {
 		p := probe{Idx: idx, Name: txOpName(ev), Ks: []kOut{}}
@@ -231,6 +294,12 @@ func runTxCase(in input) (*caseOut, error) {
 			p.Clean = "err"
 		}
 		cleanPost := observeTx(ce, tip, blocks)
+		cleanDump, err := dumpTxStore(ce.raw, ids)
+		if err != nil {
+			return nil, err
+		}
+		fixTxRecordValues(cleanDump)
+		p.Delta = diffDumps(state, cleanDump)
 		ce.close()
 
 		for k := 1; k <= p.N; k++ {
@@ -241,7 +310,7 @@ func runTxCase(in input) (*caseOut, error) {
 			if err != nil {
 				return nil, err
 			}
-			ko := kOut{K: k}
+			ko := kOut{K: k, Cats: []string{}}
 			site := p.Name
 			if d := pre.diff(observeTx(ke, tip, blocks)); len(d) > 0 {
 				ke.close()
@@ -272,6 +341,7 @@ func runTxCase(in input) (*caseOut, error) {
 					ko.Detail = append(ko.Detail, d...)
 				}
 				for _, it := range pre.diff(observeTx(ke, tip, blocks)) {
+					ko.Cats = appendUniq(ko.Cats, category(it))
 					ko.Kinds = appendUniq(ko.Kinds, "memory_not_restored:"+category(it)+"@"+site)
 					ko.Detail = append(ko.Detail, "differs after rollback: "+it)
 				}
@@ -282,6 +352,135 @@ func runTxCase(in input) (*caseOut, error) {
 				} else if d := cleanPost.diff(observeTx(ke, tip, blocks)); len(d) > 0 {
 					ko.Kinds = append(ko.Kinds, "retry_differs@"+site)
 					ko.Detail = append(ko.Detail, fmt.Sprintf("after retry differs from the clean run in: %v", d))
+				}
+			}
+			ke.close()
+			p.Ks = append(p.Ks, ko)
+		}
+		co.Obs.Probes = append(co.Obs.Probes, p)
+	}
+	finish(co)
+	return co, nil
+}
+
+// runFreshTxCase probes wtxmgr.Create: the file holds nothing but the (empty)
+// namespace bucket.
+func runFreshTxCase(in input) (*caseOut, error) {
+	co := &caseOut{In: in}
+	dir, err := tempDir("vh-c10-newtx-")
+	if err != nil {
+		return nil, err
+	}
+	defer os.RemoveAll(dir)
+	snapshot := filepath.Join(dir, "fresh.db")
+	raw, err := walletdb.Create("bdb", snapshot, true, time.Minute, false)
+	if err != nil {
+		return nil, err
+	}
+	err = walletdb.Update(raw, func(tx walletdb.ReadWriteTx) error {
+		_, err := tx.CreateTopLevelBucket(txNS)
+		return err
+	})
+	if err != nil {
+		return nil, err
+	}
+	u := txsim.NewUniverse()
+	ids := newTxIDs(u, txsim.BlockIDs{})
+	state, err := dumpTxStore(raw, ids)
+	if err != nil {
+		return nil, err
+	}
+	raw.Close()
+	co.Obs.State = state
+	open := func() (*txEnv, error) {
+		e := &txEnv{path: filepath.Join(dir, fmt.Sprintf("copy%d.db", atomic.AddInt64(&copySeq, 1))), u: u}
+		if err := copyFile(snapshot, e.path); err != nil {
+			return nil, err
+		}
+		var err error
+		e.raw, err = walletdb.Open("bdb", e.path, true, time.Minute, false)
+		if err != nil {
+			return nil, err
+		}
+		e.fdb = faultdb.Wrap(e.raw)
+		return e, nil
+	}
+	observe := func(e *txEnv) items {
+		it := items{}
+		walletdb.View(e.raw, func(tx walletdb.ReadTx) error {
+			if _, err := wtxmgr.Open(tx.ReadBucket(txNS), &chaincfg.MainNetParams); err != nil {
+				it["open"] = err.Error()
+			} else {
+				it["open"] = "ok"
+			}
+			return nil
+		})
+		return it
+	}
+	for idx, ev := range in.TxOps {
+		p := probe{Idx: idx, Name: txOpName(ev), Ks: []kOut{}}
+		ce, err := open()
+		if err != nil {
+			return nil, err
+		}
+		preDump, err := faultdb.Dump(ce.raw)
+		if err != nil {
+			return nil, err
+		}
+		res, failed := applyTx(ce, ev)
+		p.N = ce.fdb.Writes()
+		p.Calls = callList(ce.fdb.Calls)
+		p.Result = res
+		p.Clean = "ok"
+		if failed {
+			p.Clean = "err"
+		}
+		cleanPost := observe(ce)
+		cleanDump, err := dumpTxStore(ce.raw, ids)
+		if err != nil {
+			return nil, err
+		}
+		p.Delta = diffDumps(state, cleanDump)
+		ce.close()
+		for k := 1; k <= p.N; k++ {
+			if !wantK(&in, k) {
+				continue
+			}
+			ke, err := open()
+			if err != nil {
+				return nil, err
+			}
+			ko := kOut{K: k, Cats: []string{}}
+			ke.fdb.FailAt = k
+			kres, kfailed := applyTx(ke, ev)
+			ke.fdb.FailAt = 0
+			ko.Fired, ko.Err, ko.Text = ke.fdb.Fired, kfailed, kres
+			if fc := ke.fdb.FailedCall(); fc != nil {
+				ko.Callee = fc.Callee
+			}
+			switch {
+			case !ko.Fired:
+				ko.Kinds = append(ko.Kinds, "write_count_not_reproducible@"+p.Name)
+			case !kfailed:
+				ko.Kinds = append(ko.Kinds, "success_with_failed_write@"+p.Name+"/"+ko.Callee)
+			default:
+				dump, err := faultdb.Dump(ke.raw)
+				if err != nil {
+					return nil, err
+				}
+				if d := faultdb.DiffDump(preDump, dump, 6); len(d) > 0 {
+					ko.Kinds = append(ko.Kinds, "database_changed_after_rollback@"+p.Name)
+					ko.Detail = append(ko.Detail, d...)
+				}
+				rres, _ := applyTx(ke, ev)
+				rdump, err := dumpTxStore(ke.raw, ids)
+				if err != nil {
+					return nil, err
+				}
+				dd := diffDumps(cleanDump, rdump)
+				if rres != res || len(cleanPost.diff(observe(ke))) > 0 || len(dd.Put)+len(dd.Del)+len(dd.NewB)+len(dd.GoneB) > 0 {
+					ko.Kinds = append(ko.Kinds, "retry_differs@"+p.Name)
+					ko.Detail = append(ko.Detail, fmt.Sprintf("retry result %q, clean result %q, file differs in %v", rres, res, dd))
 				}
 			}
 			ke.close()
@@ -357,6 +556,10 @@ func genTxStates(r *gen.R, perHist, want int) []input {
 				}
 			}
 		}
+		// sometimes a transaction carries a label already (the label bucket exists)
+		if len(s.U.Txs) > 0 && r.Chance(1, 3) {
+			in.Events = append(in.Events, txsim.Event{K: "label", T: s.U.Txs[r.Intn(len(s.U.Txs))].ID, ID: 100 + int64(r.Range(1, 9))})
+		}
 		add := func(e txsim.Event) {
 			if e.K == "tick" {
 				return
@@ -429,6 +632,18 @@ func genTxStates(r *gen.R, perHist, want int) []input {
 			add(txsim.Event{K: "release", ID: 2, Op: op})
 		}
 		add(txsim.Event{K: "sweep"})
+		// labels: on a known transaction, on one the store does not hold, and
+		// the two refused ones (empty, too long); creating the store again
+		if len(s.U.Txs) > 0 {
+			t := s.U.Txs[r.Intn(len(s.U.Txs))].ID
+			in.TxOps = append(in.TxOps, txsim.Event{K: "label", T: t, ID: int64(r.Range(1, 9))})
+			if r.Chance(1, 2) {
+				in.TxOps = append(in.TxOps, txsim.Event{K: "label", T: t, ID: []int64{0, -1}[r.Intn(2)]})
+			}
+		}
+		if r.Chance(1, 3) {
+			in.TxOps = append(in.TxOps, txsim.Event{K: "create"})
+		}
 		if len(in.TxOps) == 0 {
 			continue
 		}
